@@ -182,7 +182,7 @@ func (f capFmt) order() binary.AppendByteOrder {
 	return binary.LittleEndian
 }
 
-func writePcap(f capFmt, link uint32, frames [][]byte) []byte {
+func writePcap(f capFmt, link uint32, frames [][]byte, origLens []int) []byte {
 	bo := f.order()
 	magic := uint32(0xa1b2c3d4)
 	if f.ns {
@@ -200,7 +200,7 @@ func writePcap(f capFmt, link uint32, frames [][]byte) []byte {
 		out = bo.AppendUint32(out, uint32(1600000000+i/1000))
 		out = bo.AppendUint32(out, uint32(i%1000)*100)
 		out = bo.AppendUint32(out, uint32(len(fr)))
-		out = bo.AppendUint32(out, uint32(len(fr)))
+		out = bo.AppendUint32(out, uint32(origLens[i]))
 		out = append(out, fr...)
 	}
 	return out
@@ -236,7 +236,7 @@ func ngOption(bo binary.AppendByteOrder, code uint16, val []byte) []byte {
 // one EPB per frame (ifaces[i] = interface of frame i; every second EPB carries a comment option).
 // exactLen: section_length = number of bytes following the SHB (the specification's meaning) instead of -1.
 // It also returns the length of the SHB and of the last block of the section (0: SHB only).
-func ngSection(f capFmt, links []uint32, frames [][]byte, ifaces []int) (out []byte, shbLen int, lastLen int) {
+func ngSection(f capFmt, links []uint32, frames [][]byte, ifaces []int, origLens []int) (out []byte, shbLen int, lastLen int) {
 	exactLen := f.len
 	bo := f.order()
 	var body []byte
@@ -257,7 +257,7 @@ func ngSection(f capFmt, links []uint32, frames [][]byte, ifaces []int) (out []b
 		epb = bo.AppendUint32(epb, 0x0005a000)
 		epb = bo.AppendUint32(epb, uint32(i)*100)
 		epb = bo.AppendUint32(epb, uint32(len(fr)))
-		epb = bo.AppendUint32(epb, uint32(len(fr)))
+		epb = bo.AppendUint32(epb, uint32(origLens[i]))
 		epb = pad4(append(epb, fr...))
 		if i%2 == 1 {
 			epb = append(epb, ngOption(bo, 1, []byte("c"))...)
